@@ -16,6 +16,7 @@
  *   snprintf (MPX_GEN only)  = writes at most n bytes into the destination, NUL-terminated, any return value. */
 #include "spec/verif_zck.h"
 #include "stubs/regex.h"
+#include "contracts/mpx_cb.h"   /* the statement macros shared with the lean contract of multipart_extract used by unit mpx_cb */
 #include <limits.h>
 #ifndef MPX_L
 #define MPX_L 6
@@ -136,14 +137,13 @@ void h_mpx(void) {
 
     size_t r = multipart_extract(dl, b, MPX_L);
 
-    V_ASSERT(r == 0 || r >= MPX_L, "C17.multipart_extract.accepts_everything_or_reports_zero");
+    V_ASSERT(MPXC_RET(r, MPX_L), "C17.multipart_extract.accepts_everything_or_reports_zero");
     V_ASSERT(r == 0 || r == MPX_T, "C17.multipart_extract.returns_zero_or_carried_plus_fragment_length");
-    V_ASSERT((dl->dl_regex == NULL) == (dl->end_regex == NULL), "C17.multipart_extract.no_uncompiled_pattern_left_behind_on_any_return");
-    V_ASSERT(dl->dl_regex == NULL || (__CPROVER_rw_ok(dl->dl_regex, sizeof(regex_t)) && RX_COMPILED(dl->dl_regex) && __CPROVER_rw_ok(dl->end_regex, sizeof(regex_t)) && RX_COMPILED(dl->end_regex)), "C17.multipart_extract.no_uncompiled_pattern_left_behind_on_any_return");
-    V_ASSERT(mp->buffer == NULL || (mp->buffer_len > 0 && __CPROVER_rw_ok(mp->buffer, mp->buffer_len) && __CPROVER_POINTER_OFFSET(mp->buffer) == 0 && __CPROVER_OBJECT_SIZE(mp->buffer) == mp->buffer_len), "C17.multipart_extract.carried_buffer_length_equals_its_allocation_on_every_return");
+    V_ASSERT(CBL_RX_INV(dl), "C17.multipart_extract.no_uncompiled_pattern_left_behind_on_any_return");
+    V_ASSERT(dl->mp == mp && CBL_MP_WF(mp), "C17.multipart_extract.carried_buffer_length_equals_its_allocation_on_every_return");
     V_ASSERT(mp->buffer == NULL || mp->buffer_len <= MPX_T, "C17.multipart_extract.carried_buffer_never_longer_than_what_was_delivered");
     V_ASSERT(MPX_L == 0 || __CPROVER_rw_ok(b, MPX_L), "C17.multipart_extract.the_callers_buffer_is_not_freed");
-    V_ASSERT(in.err0 == 0 || (r == 0 && g_nwrites == 0), "C17,C12.multipart_extract.context_in_error_is_refused");
+    V_ASSERT(MPXC_ERR_REFUSED(in.err0, r) && (in.err0 == 0 || g_nwrites == 0), "C17,C12.multipart_extract.context_in_error_is_refused");
     /* vacuity guards (which of them exist depends on how many bytes the variant has) */
     V_COVER(r == MPX_T);                                                                /* accepted */
     V_COVER(r == 0 && in.err0 > 0);                                                     /* context in error refused */
